@@ -2,6 +2,7 @@ import IRModel.Lemmas.WrapGlue
 import IRModel.Lemmas.WrapC05
 import IRModel.Lemmas.WrapC07
 import IRModel.Lemmas.WrapC03
+import IRModel.Lemmas.WrapC08
 /-!
 # Wrapper-level theorems (per-protocol `encode()` / `decode()` bodies inside the model)
 
@@ -71,6 +72,15 @@ theorem C03_wrapper (t : Tables) (w : Wrapper) (tol : Match.Tol) (htol : tol.ok)
   obtain ⟨fs, h1, h2, h3, h4⟩ := C03_trace t tol htol hw w rc w.enc[rc] htr (hall _ (List.getElem_mem hlt)) u hu
   exact ⟨fs, h1, by simp only [frameCount, htr]; exact h2, h3, h4⟩
 
+/-- **C08 at wrapper level**, from the kernel-checked obligation of one protocol: a decoder instance started without
+    history and fed ANY sequence of ANY integer lists — garbage, truncated or mutated frames, frames of other protocols —
+    answers every call with a code or with an error of the library's own family; `decode()` of this protocol never
+    leaks IndexError, TypeError, AttributeError, … in any reachable state. (Termination is by construction: every
+    function of the model is structurally recursive.) -/
+theorem C08_wrapper (t : Tables) (w : Wrapper) (hok : c08OK t w = true) (tol : Match.Tol) (inputs : List (List Int)) :
+    ∀ r ∈ runInputs t w { last := none, tol := tol } inputs, ∀ e, r = .error e → e.isLibrary = true :=
+  C08_wrapper_history t w (c08OK_spec t w hok) inputs _ (by intro l hl; simp at hl)
+
 /-- non-vacuity: a two-field toy protocol (pulse distance, 8-bit function + its complement, `decode()` re-checks the
     complement) meets both obligations -/
 def toyT : Tables :=
@@ -93,7 +103,7 @@ def toyW : Wrapper :=
                   (.ite .lastEq (.leaf [] .retLast)
                     (.leaf [.stopLast, .setLastNone, .setLastCode] (.ret [("F", .field "F"), ("F_CHECKSUM", .field "F_CHECKSUM")] true))) }
 
-example : wfAll toyT ⟨20, 1⟩ = true ∧ c01OK toyT toyW = true ∧ c05OK toyT toyW = true ∧ c07OK toyT toyW = true := by decide +kernel
+example : wfAll toyT ⟨20, 1⟩ = true ∧ c01OK toyT toyW = true ∧ c05OK toyT toyW = true ∧ c07OK toyT toyW = true ∧ c08OK toyT toyW = true := by decide +kernel
 
 /-- the held-key shortcut moved in front of the complement check (a frame with a corrupted complement then returns the
     held key) fails the C07 obligation -/
